@@ -2,6 +2,9 @@ import WK.Model.C07
 import WK.Spec.C07
 import WK.Proofs.C07_Inv8
 import WK.Proofs.C07_Ref5
+import WK.Proofs.C07_Ref7
+import WK.Proofs.C07_Ref8
+import WK.Proofs.C07_Ref9
 /-
   C07 — theorems about the executable store model (`WK.C07.step`, the function the
   driver runs against the real store).
@@ -523,5 +526,117 @@ theorem c07_refines_run_partial (ops : List Op) (st : Store) (hi : Inv st) (hk :
         rw [← R.1]; exact this
 
 example : Covered (.app 0 0 0 []) ∧ Covered .reopen ∧ ¬ Covered (.trunc 0 1) := ⟨trivial, trivial, fun h => h⟩
+
+/-! ### refinement, final round: follower apply and checkpoint stores -/
+
+/-- **c07_refines_fetch**: `ChannelLog.ApplyFetch` (trusted records, optional checkpoint written in the same
+    batch, checkpoint gate included) refines the reference log's follower apply. -/
+theorem c07_refines_fetch (st : Store) (c base : Nat) (ck : Option Ckpt) (recs : List Rec) (hi : Inv st) (hk : Chk st)
+    (hs : SafeBatch st c 2 recs) : Refines st (.fetch c base ck recs) := refines_fetch st c base ck recs hi hk hs
+
+example : Refines Store.init (.fetch 1 1 (some ⟨0, 0, 1⟩) [⟨5, [1], [2], [3], 4⟩]) :=
+  c07_refines_fetch _ _ _ _ _ inv_init (by intro c r hr; rw [init_chan] at hr; cases hr)
+    ⟨by decide, fun _ rc hrc => by simp at hrc; subst hrc; rfl, fun _ rc hrc _ _ => by simp at hrc; subst hrc; rfl⟩
+
+/-- **c07_refines_ckpt / c07_refines_ckptm**: `StoreCheckpoint` and `StoreCheckpointMonotonic` refine the reference log. -/
+theorem c07_refines_ckpt (st : Store) (c : Nat) (k : Ckpt) (hi : Inv st) (hk : Chk st) (hc : c < numChan) :
+    Refines st (.ckpt c k) := refines_ckpt st c k hi hk hc
+theorem c07_refines_ckptm (st : Store) (c : Nat) (k : Ckpt) (v l : Nat) (hi : Inv st) (hk : Chk st) (hc : c < numChan) :
+    Refines st (.ckptm c k v l) := refines_ckptm st c k v l hi hk hc
+
+example : Refines Store.init (.ckpt 0 ⟨1, 0, 0⟩) ∧ Refines Store.init (.ckptm 0 ⟨1, 0, 0⟩ 0 0) :=
+  ⟨c07_refines_ckpt _ _ _ inv_init (by intro c r hr; rw [init_chan] at hr; cases hr) (by decide),
+   c07_refines_ckptm _ _ _ _ _ inv_init (by intro c r hr; rw [init_chan] at hr; cases hr) (by decide)⟩
+
+/-- **c07_refines_trunc**: `TruncateFrom` refines the reference log's suffix truncation under the contract
+    `SafeTrunc` (not below the durable RetainedMaxSeq — outside it the refinement is FALSE, see
+    `c07_truncate_below_retained_counterexample`). -/
+theorem c07_refines_trunc (st : Store) (c f : Nat) (hi : Inv st) (hk : Chk st) (hs : SafeTrunc st c f) :
+    Refines st (.trunc c f) := refines_trunc st c f hi hk hs
+
+example : Refines Store.init (.trunc 2 3) := by
+  refine c07_refines_trunc _ _ _ inv_init (by intro c r hr; rw [init_chan] at hr; cases hr) ⟨by decide, ?_⟩
+  intro h
+  have : recoverLEO (Store.init.chan 2) = 0 := by rw [init_chan]; rfl
+  rw [this] at h
+  simp at h
+
+/-- **c07_refines_byid / c07_refines_idem**: `GetByMessageID` and `LookupIdempotency` (index lookups) return exactly what
+    the reference log derives from its rows — never a removed or different row, never a stale-index error. -/
+theorem c07_refines_byid (st : Store) (c id : Nat) (hi : Inv st) (hk : Chk st) : Refines st (.byid c id) := refines_byid st c id hi hk
+theorem c07_refines_idem (st : Store) (c : Nat) (frm cmn : B) (hi : Inv st) (hk : Chk st) : Refines st (.idem c frm cmn) :=
+  refines_idem st c frm cmn hi hk
+
+example : Refines Store.init (.byid 0 7) ∧ Refines Store.init (.idem 0 [1] [2]) :=
+  ⟨c07_refines_byid _ _ _ inv_init (by intro c r hr; rw [init_chan] at hr; cases hr),
+   c07_refines_idem _ _ _ _ inv_init (by intro c r hr; rw [init_chan] at hr; cases hr)⟩
+
+/-- the constructors covered after the final round: everything except `trim`, `bycmn` and `lss` -/
+def Covered2 : Op → Prop
+  | .trim .. | .bycmn .. | .lss .. => False
+  | _ => True
+
+/-- **c07_refines_step_partial2**: one step of any constructor except `trim`, `bycmn`, `lss` refines the reference log
+    (state abstraction, equal outputs, hash invariant kept) in every reachable store under `Safe`.
+    Missing for the unconditional `c07_refines_step`: those three constructors (for `trim` the invariant lacks
+    `physical ≤ logical`, needed to show the model's `validateRetentionState` never fires; `bycmn` and `lss`
+    need list-level index agreement). -/
+theorem c07_refines_step_partial2 (st : Store) (op : Op) (hi : Inv st) (hk : Chk st) (hs : Safe st op) (hc : Covered2 op) :
+    Refines st op := by
+  cases op with
+  | app c mode base recs => exact refines_append st c mode base recs hi hk hs
+  | fetch c base ck recs => exact refines_fetch st c base ck recs hi hk hs
+  | trunc c f => exact refines_trunc st c f hi hk hs
+  | ckpt c k => exact refines_ckpt st c k hi hk hs
+  | ckptm c k v l => exact refines_ckptm st c k v l hi hk hs
+  | close c => exact refines_close st c hk
+  | reopen => exact refines_reopen st hk
+  | leo c => exact refines_leo st c hi hk hs
+  | lret c => exact refines_lret st c hk
+  | lckpt c => exact refines_lckpt st c hk
+  | read c f l b => exact refines_read st c f l b hk
+  | rread c f l b => exact refines_rread st c f l b hi hk hs
+  | get c s => exact refines_get st c s hk
+  | byid c id => exact refines_byid st c id hi hk
+  | lastvis c a => exact refines_lastvis st c a hi hk
+  | idem c f m => exact refines_idem st c f m hi hk
+  | trim _ _ _ _ => exact absurd hc (by simp [Covered2])
+  | bycmn _ _ _ _ => exact absurd hc (by simp [Covered2])
+  | lss _ _ _ => exact absurd hc (by simp [Covered2])
+
+/-- **c07_refines_run_partial2**: for every operation list without `trim`/`bycmn`/`lss` that respects the contracts —
+    appends in all modes, follower applies, truncations, checkpoint stores, closes, reopens, reads and lookups —
+    abstracting the model run equals running the reference log, the invariants hold at the end, and the outputs agree at every position. -/
+theorem c07_refines_run_partial2 (ops : List Op) (st : Store) (hi : Inv st) (hk : Chk st) (hs : SafeRun st ops)
+    (hc : ∀ op ∈ ops, Covered2 op) :
+    abs (run st ops) = specRun (abs st) ops ∧ Inv (run st ops) ∧ Chk (run st ops) ∧
+    ∀ (pre : List Op) (op : Op) (post : List Op), ops = pre ++ op :: post →
+      (step (run st pre) op).2 = (specStep (specRun (abs st) pre) op).2 := by
+  induction ops generalizing st with
+  | nil => exact ⟨rfl, hi, hk, fun pre op post h => by cases pre <;> cases h⟩
+  | cons o rest ih =>
+    have R := c07_refines_step_partial2 st o hi hk hs.1 (hc o List.mem_cons_self)
+    have I1 := inv_step st o hi hs.1
+    obtain ⟨a, b, c, d⟩ := ih (step st o).1 I1 R.2.2 hs.2 (fun op h => hc op (List.mem_cons_of_mem _ h))
+    refine ⟨?_, b, c, ?_⟩
+    · show abs (run (step st o).1 rest) = specRun (specStep (abs st) o).1 rest
+      rw [a, R.1]
+    · intro pre op post h
+      cases pre with
+      | nil =>
+        simp only [List.nil_append, List.cons.injEq] at h
+        obtain ⟨e, _⟩ := h
+        subst e
+        exact R.2.1
+      | cons p pre' =>
+        simp only [List.cons_append, List.cons.injEq] at h
+        obtain ⟨e, h'⟩ := h
+        subst e
+        have := d pre' op post h'
+        show (step (run (step st o).1 pre') op).2 = (specStep (specRun (specStep (abs st) o).1 pre') op).2
+        rw [← R.1]; exact this
+
+example : Covered2 (.fetch 0 1 none []) ∧ Covered2 (.trunc 0 1) ∧ Covered2 (.idem 0 [1] [2]) ∧ ¬ Covered2 (.trim 0 1 0 0) :=
+  ⟨trivial, trivial, trivial, fun h => h⟩
 
 end WK.C07
